@@ -43,11 +43,13 @@ site('stmt.c', 'stmt', 'expect', "TLPAREN after 'if'", T('stmt', 'if h_v ;'))
 site('stmt.c', 'stmt', 'expect', "TLPAREN after 'switch'", T('stmt', 'switch h_v { default: ; }'))
 site('stmt.c', 'stmt', 'expect', "TLPAREN after 'while'", T('stmt', 'while h_v ;'), T('stmt', 'do ; while h_v;'), n=2)
 site('stmt.c', 'stmt', 'expect', 'TLPAREN after while', T('stmt', 'for ;;) ;'), T('stmt', 'for int i_ = 0; i_ < 1; ++i_) ;'))
-site('stmt.c', 'stmt', 'expect', 'TRPAREN <expr NULL>', T('stmt', 'for (;; h_v++ ;) ;'), T('stmt', 'for (;; h_v++ {}'))
+site('stmt.c', 'stmt', 'expect', "TRPAREN after 'for' clauses", T('stmt', 'for (;; h_v++ ;) ;'), T('stmt', 'for (;; h_v++ {}'))
 site('stmt.c', 'stmt', 'expect', 'TRPAREN after expression',
      T('stmt', 'if (h_v ;'), T('stmt', 'switch (h_v { default: ; }'), T('stmt', 'while (h_v 1) ;'), T('stmt', 'do ; while (h_v ;'), n=4)
-site('stmt.c', 'stmt', 'expect', 'TSEMICOLON <expr NULL>',
-     T('stmt', 'for (h_v = 0) ;'), T('stmt', 'for (; h_v < 1) ;'), T('stmt', 'for (h_v = 0, h_v < 1; h_v++) ;'), n=2)
+site('stmt.c', 'stmt', 'expect', "TSEMICOLON after 'for' initializer",
+     T('stmt', 'for (h_v = 0) ;'), T('stmt', 'for (h_v = 0 h_v < 3; ) ;', note='regression (fixed e628424): the message argument was NULL'))
+site('stmt.c', 'stmt', 'expect', "TSEMICOLON after 'for' condition",
+     T('stmt', 'for (; h_v < 1) ;'), T('stmt', 'for (h_v = 0, h_v < 1; h_v++) ;'), T('stmt', 'for (int i_ = 0; i_ < 3 i_++) ;'))
 site('stmt.c', 'stmt', 'expect', "TSEMICOLON after 'break' statement", T('stmt', 'while (h_v) { break 1; }'), T('stmt', 'switch (h_v) { default: break }'))
 site('stmt.c', 'stmt', 'expect', "TSEMICOLON after 'continue' statement", T('stmt', 'while (h_v) { continue 1; }'), T('stmt', 'do continue while (0);'))
 site('stmt.c', 'stmt', 'expect', "TSEMICOLON after 'do' statement", T('stmt', 'do ; while (0) h_v = 1;'), T('stmt', '{ do ; while (0) }'))
